@@ -110,6 +110,39 @@ def dupfilter_family(tag):
     return scs
 
 
+def downmeta(ctx, tag, quick):
+    """DownMeta.tla: the metadata path stage by stage. Exhaustive check of the path as coded, the shared-subscription variant must lose
+    per-source order, order across source nodes is not promised (sanity), liveness without overflow; then environment scripts of random
+    complete behaviours are replayed on a real downstream opened with the same filter list."""
+    for fl in (("F_121",) if quick else ("F_121", "F_11", "F_12")):
+        cfg = D.write_meta_cfg("DownMeta_%s_%s.cfg" % (tag, fl), filters=fl, n=4, cap=4)
+        ctx.l1("DownMeta", cfg, timeout=900)
+        os.remove(os.path.join(SPEC, cfg))
+    cfg = D.write_meta_cfg("DownMeta_%s_small.cfg" % tag, filters="F_121", n=4, cap=2)     # stages overflow: drops, never reordering or duplication
+    ctx.l1("DownMeta", cfg, timeout=900)
+    os.remove(os.path.join(SPEC, cfg))
+    for name, kw, inv in (("shared", dict(shared=True), "PerSourceOrder"), ("global", dict(invs="GlobalOrder"), "GlobalOrder")):
+        cfg = D.write_meta_cfg("DownMeta_%s_%s.cfg" % (tag, name), filters="F_121", n=4, cap=4, **kw)
+        rc = ctx.l1("DownMeta", cfg, must_hold=False, timeout=600)
+        os.remove(os.path.join(SPEC, cfg))
+        if rc.violated != inv:
+            raise Inconclusive("DownMeta %s configuration should violate %s, TLC says %s" % (name, inv, rc.violated or rc.error or "nothing"))
+    if not quick:
+        cfg = D.write_meta_cfg("DownMeta_%s_live.cfg" % tag, filters="F_121", n=3, cap=3, live=True)
+        ctx.l1("DownMeta", cfg, timeout=1500)
+        os.remove(os.path.join(SPEC, cfg))
+    scs = []
+    for fl in ("F_121", "F_11", "F_111", "F_12"):
+        gcfg = D.write_meta_cfg("DownMeta_gen_%s_%s.cfg" % (tag, fl), filters=fl, n=8, cap=8, inbox=8, gen=True)
+        r = ctx.tlc("DownMeta", gcfg, workers=1, simulate="num=%d" % (300 if quick else 3000), depth=200, timeout=900)
+        os.remove(os.path.join(SPEC, gcfg))
+        if r.violated or r.error:
+            raise Inconclusive("DownMeta simulation failed: %s" % (r.violated or r.error))
+        scripts = U.scripts_of(r)
+        scs += [D.meta_to_scenario("%s/downmeta-%s/%d" % (tag, fl, k), sc, D.META_FILTERS[fl]) for k, sc in enumerate(pick(scripts, 6 if quick else 60, ctx.seed))]
+    return scs
+
+
 def core(tag):
     """fixed scenarios: the same upstream in full form several times before the first ack flush; pre-registered ids; close with pending acks."""
     scs = []
@@ -274,7 +307,7 @@ def run(pid="C04", mon="MonC04"):
         js.append(dict(x, id=x["id"] + "-json", conn=dict(x["conn"], encoding="json")))
     scs += js
     if pid == "C03":
-        scs += meta_family(pid) + dupfilter_family(pid)
+        scs += meta_family(pid) + dupfilter_family(pid) + downmeta(ctx, pid, quick)
         # unreliable downstream over a transport with a separate unreliable path (chunks arrive on the datagram-like pipe)
         scs += forms_family(pid, 3, "up", qos="unreliable", conn={"unreliable": True}, name="forms-up3-unreliable-path")
         scs += forms_family(pid, 3, "up", qos="partial", name="forms-up3-partial")
